@@ -108,3 +108,5 @@ where
         cases strContains (asciiLower c) "json" <;> simp [fmtVal]
 
 end Rbacx.Translated
+
+#print axioms Rbacx.Translated.detect_format
